@@ -170,6 +170,13 @@ func ReplaceSpaces
   modifies nothing
   loop 0 inv (ret == nil || fresh(ret)) && -1 <= start && start < len(source)
 
+macro isRef(s) = isQuot(s) || isAmp(s) || isLt(s) || isGt(s)
+func EscapeHTMLByte
+  uses htmlEscapeTableFacts
+  ensures (result != nil) <==> needsHTMLEscape(b)
+  ensures needsHTMLEscape(b) ==> (isRef(result) && inert(result))
+  modifies nothing
+
 func EscapeHTML
   uses htmlEscapeTableFacts
   ensures inert(result)
